@@ -176,7 +176,9 @@ def cleanup_observations(prg, inputs, backward=False):
     real_rm, real_sup = CleanupTranslator._remove_superseed_from_list, CleanupTranslator._superseeded
 
     def find(self, p):
-        cur["prg"] = list(p)
+        import copy
+        # a DEEP copy: `_apply_superseeding` replaces the elements of body aggregates in place
+        cur["prg"] = [copy.deepcopy(x) for x in p]
         return real_find(self, p)
 
     def apply(self, stm):
@@ -223,6 +225,18 @@ def _cleanup_chain(cur, order, false, Rule, LOC):
     for i in order:
         stm, out, events = cur["done"][i]
         for top, lhs, rhs in events:
+            if not top and stm.ast_type == ASTType.Rule:
+                # inside the condition of a conditional literal / of an element of a body aggregate
+                r = _inner_deletion(current[i], lhs, rhs, false, Rule, LOC)
+                if r is None:
+                    other += 1
+                else:
+                    current[i], ob = r
+                    if ob is None:
+                        other += 1
+                    else:
+                        obs.append(ob)
+                continue
             if not top or stm.ast_type != ASTType.Rule:
                 other += 1
                 continue
@@ -255,6 +269,57 @@ def _cleanup_chain(cur, order, false, Rule, LOC):
                 other += 1
         current[i] = out
     return obs, other
+
+
+def _inner_deletion(rule, lhs, rhs, false, Rule, LOC):
+    """locate the first condition of `rule` that holds both literals, delete `rhs` there; returns (new rule, observation or
+    None if the deletion is not of the same-predicate kind / outside the mirror)"""
+    for bi, blit in enumerate(rule.body):
+        if blit.ast_type == ASTType.ConditionalLiteral:
+            conds = [(-1, list(blit.condition))]
+        elif blit.ast_type == ASTType.Literal and blit.atom.ast_type == ASTType.BodyAggregate:
+            conds = [(ej, list(e.condition)) for ej, e in enumerate(blit.atom.elements)]
+        else:
+            continue
+        for ej, cond in conds:
+            if rhs not in cond:
+                continue
+            k = cond.index(rhs)
+            js = [x for x, l in enumerate(cond) if x != k and l == lhs]
+            if not js:
+                continue
+
+            def put(r_, newcond):
+                b_ = r_.body[bi]
+                if ej == -1:
+                    nb = b_.update(condition=newcond)
+                else:
+                    els = list(b_.atom.elements)
+                    els[ej] = els[ej].update(condition=newcond)
+                    nb = b_.update(atom=b_.atom.update(elements=els))
+                body_ = list(r_.body)
+                body_[bi] = nb
+                return r_.update(body=body_)
+            new_rule = put(rule, cond[:k] + cond[k + 1:])
+            same_pred = (lhs.ast_type == ASTType.Literal and rhs.ast_type == ASTType.Literal
+                         and lhs.atom.ast_type == ASTType.SymbolicAtom and rhs.atom.ast_type == ASTType.SymbolicAtom
+                         and lhs.atom.symbol.ast_type == ASTType.Function and rhs.atom.symbol.ast_type == ASTType.Function
+                         and (lhs.atom.symbol.name, len(lhs.atom.symbol.arguments)) == (rhs.atom.symbol.name, len(rhs.atom.symbol.arguments)))
+            if not same_pred:
+                return new_rule, None
+            try:
+                before2 = apart(rule)
+                b2 = before2.body[bi]
+                cond2 = list(b2.condition) if ej == -1 else list(b2.atom.elements[ej].condition)
+                after2 = put(before2, cond2[:k] + cond2[k + 1:])
+                fresh = sorted({v.name for v in _collect(cond2[k], "Variable") if v.name.startswith("_#")})
+                ob = ("anon-in", ser.stm(before2), ser.stm(after2), f"{bi} {ej}", ser.stm(Rule(LOC, false, [cond2[js[0]]])),
+                      ser.stm(Rule(LOC, false, [cond2[k]])) + " (" + " ".join(ser.q(v) for v in fresh) + ")",
+                      f"{lhs} supersedes its weaker copy {rhs} inside a condition of {rule}")
+                return new_rule, ob
+            except Exception:  # noqa - outside the mirror
+                return new_rule, None
+    return None
 
 
 def duplication_observations(prg, inputs):
@@ -550,7 +615,12 @@ def run(rng, n_gen, corpus_limit=None, kinds=None) -> dict:
         tag = f"cl{len(meta)}"
         for order_name, lst in (("", cobs), ("@backward", bobs)):
             for pre, before, after, post, pr, qr, what in lst:
-                if pre == "anon":
+                if pre == "anon-in":
+                    if order_name:
+                        continue
+                    reqs.append(f'(sem_anon_in {before} {after} {post} {pr} {qr})')   # (before, after, "i j", :- p., ":- q. (F)")
+                    meta.append(("cleanup-copy-in-condition", text, what, 1))
+                elif pre == "anon":
                     if order_name:
                         continue   # a strong equivalence: the order is immaterial, counted once
                     reqs.append(f'(sem_anon_cond {before} {after} {post} {pr} {qr})')   # (before, after, :- p., :- q., F)
